@@ -356,6 +356,51 @@ def join(pre, toks):
     return '%s|%s|%s' % (nm, sched, '|'.join(' '.join(p) for p in progs))
 
 
+BENIGN_RACE_SITES = ('Type_Instance', 'Type_Scan', 'Type_Of')
+
+
+def tsan_pass(ctx, cases, run_model, run_spec):
+    """ThreadSanitizer build of library + harness: the same oracle on the slowed-down runs, and the data
+    races it reports inside the library as OBSERVATIONS (evidence), classified by the innermost library frame.
+    The lazily filled type-method cache slots and class pointers of the static type objects (Type_Instance,
+    Type_Scan, Type_Of) are written with the same value by every thread: expected, benign in practice."""
+    import collections
+    try:
+        ctx.build_lib('tsan', cflags=['-fsanitize=thread', '-O1'])
+        ht = ctx.build_harness('threads.c', tag='tsan', extra=['-fsanitize=thread'])
+    except Exception as e:
+        ctx.notes.append('ThreadSanitizer build not available: %r' % e)
+        return
+    env = dict(os.environ, H_TIMEOUT='120', TSAN_OPTIONS='halt_on_error=0 exitcode=0 report_signal_unsafe=0')
+    errs = []
+
+    def run_impl(cs):
+        rc, out, err = ctx.run_lines(ht, cs, env=env, timeout=6000)
+        errs.append(err)
+        return out
+    d = vlib.Differential(ctx, 'threads_tsan', run_impl, run_model, run_spec, oracle, corr, nontrivial)
+    for i in range(0, len(cases), 50):
+        d.feed(cases[i:i + 50])
+    sites = collections.Counter()
+    for rep in ''.join(errs).split('=================='):
+        if 'ThreadSanitizer: data race' not in rep:
+            continue
+        fr = re.findall(r'#0 (\S+) (\S+?):(\d+)', rep)      # innermost frame of each of the two accesses
+        lib = [(f, os.path.basename(fl), ln) for f, fl, ln in fr[:2] if '/src/' in fl]
+        if lib:
+            sites['%s %s:%s' % lib[0]] += 1
+        else:
+            sites['(harness bookkeeping variables only)'] += 1
+    unexpected = {k: v for k, v in sites.items() if not k.startswith(BENIGN_RACE_SITES) and not k.startswith('(harness')}
+    ctx.cov['thread_sanitizer'] = {'cases': len(cases), 'race_reports_by_library_site': dict(sites.most_common(40)),
+                                   'expected_benign_sites': list(BENIGN_RACE_SITES),
+                                   'unexpected_library_sites': unexpected,
+                                   'note': 'observations only: a race is not a violation unless it breaks an observable claim of the property (the oracle ran on these cases too)'}
+    if unexpected:
+        ctx.notes.append('ThreadSanitizer reported races at library sites outside the known benign set: %s' % unexpected)
+    d.report()
+
+
 CORPUS = [
     # exception nests in two threads + TLS + with-section + trylock section
     '2|1,2,1,2,0|S1 S2 e1 [ t3 e9 ]3 e4 } J1 J2 P1 P2|a1 a0 c s1,5 g1 [ g2 ] } o W0( i0 ) e2 w0,20 w3,30|[ [ t2 ]1 e5 } ] e6 } T1 i1 U1 m1 [ r1 ]0 o } a1 a1 u0 c w4,5',
@@ -408,6 +453,13 @@ def run(ctx):
             out = [next(res) if x.endswith('# ok') else 'INVALID ' + x.split(' # ')[-1] for x in sp]
         else:
             out = ctx.run_lines(h, cs, env=env, timeout=3000)[1]
+        for n, o in enumerate(out):
+            if o.endswith('TIMEOUT') and not os.environ.get('VERIF_NO_RETRY'):
+                # a loaded machine can starve 17 threads for 20 s: once more, alone, with a long watchdog
+                stats['timeouts_retried'] = stats.get('timeouts_retried', 0) + 1
+                r2 = ctx.run_lines(h, [cs[n]], env=dict(env, H_TIMEOUT='150'), timeout=400)[1]
+                if r2:
+                    out[n] = r2[0]
         for o in out:
             m = re.search(r'miss=(\d+) maxpar=(\d+)', o)
             if m:
@@ -483,6 +535,10 @@ def run(ctx):
     for i in range(0, len(cases), 100):
         d.feed(cases[i:i + 100])
     ctx.cov['thread_counts'] = sorted(set(c.count('|') - 1 for c in cases))
+
+    if not quick and not os.environ.get('VERIF_NO_TSAN'):
+        tsan_pass(ctx, usable([gen_case(ctx.rng, n, 10, i % 5 == 0, safe) for i, n in enumerate([2, 3, 4, 8, 16] * 30)]),
+                  run_model, run_spec)
 
     def extra(dd):
         more = usable([gen_case(ctx.rng, None, None, i % 4 == 0, safe) for i in range(600)])
